@@ -320,6 +320,19 @@ def gen_cases(rng, tier, wd):
         out.append(("matching", [S, S2], Thdr, "m0,m1"))
         out.append(("matching", [S, S2], Thdr, "f,m1,m0,c0"))
         out.append(("matching-then-copy", [S], Thdr, "m0,c0"))
+    # a chunk with a 32 KiB-aligned block of zeros inside (and one at its end), copied over a target that already holds other,
+    # non-zero bytes there (an in-place update of an older file): every byte of the chunk must be written, zeros included
+    for rep in range(1 if quick else 3):
+        a, b_ = rng.rbytes(32768), rng.rbytes(32768 + rng.choice([0, 5]))
+        big = a + bytes(32768) + b_ + bytes(32768)
+        S, sh = zckfmt.build_file([b"head", big, b"tail"], ht=1, cht=rng.choice([1, 3]))
+        Tfull, th = zckfmt.build_file([b"x" * 10, big, b"other"], ht=1, cht=sh.cht)
+        tref = Ref(Tfull)
+        lo, cl = tref.ext[2]
+        old = bytearray(Tfull); old[lo:lo + cl] = bytes([0xaa]) * cl
+        out.append(("zero-blocks-over-old-bytes", [S], bytes(old), "f,c0"))
+        out.append(("zero-blocks-over-old-bytes", [S], bytes(old[:lo + 40000]), "f,c0"))
+        out.append(("zero-blocks-header-only", [S], Tfull[:tref.doff], "f,c0"))
     # chunks of several 32 KiB blocks: block loop, short reads with a stale buffer
     for blocks in ((2,) if quick else (2, 3)):
         x = rng.rbytes(32768)
